@@ -8,7 +8,7 @@
 //        ws:<n>                     wait until int(state()) == n
 //        wb:<n>                     wait until the consumer has received >= n bytes in total
 //        sleep:<ms>  tmo:<sec>      sleep | set the limit for the waits above (default 10 s)
-//   rand <src> <dst|-> <delay_us> <seed> <keyups> <maxsamples> <pace_us> <extra_on> [<consumer_stall_ms>]
+//   rand <src> <dst|-> <delay_us> <seed> <keyups> <maxsamples> <pace_us> <extra_on> [<consumer_stall_ms> [<minsamples>]]
 //                                   a feeder thread puts random samples continuously; PTT is toggled at random
 //                                   sample counts; the order of events is NOT observable
 //   -> state=<n> threw=<0|1> fed=<n> nbytes=<n> [error=<what>] bytes=<hex>
@@ -134,8 +134,10 @@ static void run_rand(const std::vector<std::string>& t)
     int pace_us = std::atoi(t[7].c_str());
     bool extra_on = t[8] != "0";
     int stall_ms = t.size() > 9 ? std::atoi(t[9].c_str()) : 0;
+    long minsamples = t.size() > 10 ? std::atol(t[10].c_str()) : 0;     // key-ups last at least this many samples
+    if (minsamples > maxsamples) minsamples = maxsamples;
     Rig rig(src, dst, delay_us, stall_ms);
-    rig.limit_s = 60.0;
+    rig.limit_s = minsamples > 1000000 ? 900.0 : 60.0 + stall_ms / 1000.0;
     std::atomic<long> fed{0};
     std::atomic<bool> stop_feeder{false};
     std::thread feeder([&] {
@@ -158,7 +160,7 @@ static void run_rand(const std::vector<std::string>& t)
             if (rig.wait([&] { return rig.mod.state() == M17Modulator::State::ACTIVE; }, "never-active")) rig.mod.ptt_on();
         }
         start = fed;
-        long n = long(r2() % (maxsamples + 1));
+        long n = minsamples + long(r2() % (maxsamples - minsamples + 1));
         rig.wait([&] { return fed - start >= n; }, "feeder-stalled");
         rig.mod.ptt_off();
         if (r2() & 1) rig.mod.wait_until_idle();   // otherwise the next ptt_on() does the waiting
